@@ -196,7 +196,7 @@ def exec_call(ctx, league, op, tracer=None):
     names = op["teams"]
     league.ensure(flat(names))
     if op["op"] == "RATE":
-        tau_eff = dec(op["tau"]) if "tau" in op else dec(ctx.cfg["kwargs"]["tau"])
+        tau_eff = dec(op["tau"]) if "tau" in op else dec(league.cfg["kwargs"]["tau"])
         rs = league.reseed_out_of_domain(names, tau_zero=(tau_eff == 0))
     else:
         rs = league.reseed_out_of_domain(names, tau_zero=True)
@@ -204,7 +204,7 @@ def exec_call(ctx, league, op, tracer=None):
         ctx.fault("domain_reseed", len(rs))
         ctx.log("reseed", rs)
     teams = league.teams_of(names)
-    rec = {"op": op, "snap": snap_teams(teams), "reseeded": rs}
+    rec = {"op": op, "snap": snap_teams(teams), "reseeded": rs, "cfg": league.cfg}
     if op["op"] == "RATE":
         kw = rate_kwargs(op)
         rec["kw"] = kw
@@ -436,6 +436,24 @@ class CallsDriver:
             ti = frng.randrange(k)
             if threads[ti]:
                 op["crash"] = [ti, frng.randrange(len(threads[ti])), int(1 + 300 * frng.random() ** 2)]
+        if rng.random() < 0.25:
+            # one worker serves another tenant: its own model object with other parameters
+            from league import gen_config
+
+            other = gen_config(rng)
+            if rng.random() < 0.7:
+                other["model"] = ctx.cfg["model"]
+            if other["model"].startswith("Thurstone"):
+                b = dec(other["kwargs"]["beta"])
+                other["kwargs"]["kappa"] = enc(min(dec(other["kwargs"]["kappa"]), 1e-2 * math.sqrt(2.0) * b * 0.999))
+            ti = rng.randrange(len(threads))
+            for o in threads[ti]:
+                if o.get("op") == "MALFORMED":
+                    o["fault"] = {"call": o["fault"]["call"], "arg": "teams", "kind": "None"}
+                for key in ("tau",):
+                    if key in o:
+                        o.update(gen_options(rng, other, rate=1.0))
+            op["models"] = {str(ti): other}
         # two sequential orders to compare with (merge orders of thread indices)
         tags = [ti for ti, t in enumerate(threads) for _ in t]
         o2 = list(tags)
@@ -522,13 +540,14 @@ class CallsDriver:
         ctx = self.ctx
         op = rec["op"]
         out = rec["out"]
+        cfg = rec.get("cfg", ctx.cfg)
         if ctx.prop == "C14":
             ids = id_mode(rec["snap"])
             lib = self.lib()
             if op["op"] == "RATE":
-                ref = ref_rate(ctx.cfg, rec["snap"], rate_kwargs(op), "iso%d" % ctx.i, stats=ctx.stats, lib=lib, ids=ids)
+                ref = ref_rate(cfg, rec["snap"], rate_kwargs(op), "iso%d" % ctx.i, stats=ctx.stats, lib=lib, ids=ids)
             else:
-                ref = ref_predict(ctx.cfg, rec["snap"], op["kind"], "iso%d" % ctx.i, stats=ctx.stats, lib=lib, ids=ids)
+                ref = ref_predict(cfg, rec["snap"], op["kind"], "iso%d" % ctx.i, stats=ctx.stats, lib=lib, ids=ids)
             ctx.evaluations += 1
             ctx.count("iso_ids:%s" % (ids or "fresh"))
             if ref != out:
@@ -541,15 +560,15 @@ class CallsDriver:
             kw = rate_kwargs(op)
             t = kw.pop("tau", None)
             b = kw.pop("limit_sigma", None)
-            ref = ref_rate(ctx.cfg, rec["snap"], kw, "cfg%d" % ctx.i, tau=t, limit_sigma=b, stats=ctx.stats, lib=self.lib())
+            ref = ref_rate(cfg, rec["snap"], kw, "cfg%d" % ctx.i, tau=t, limit_sigma=b, stats=ctx.stats, lib=self.lib())
             ctx.evaluations += 1
             if ref != out:
                 cls = self.classify_c15(rec, kw, t, b, out)
                 ctx.violation(cls, {"op": op, "snap": rec["snap"], "got": out, "constructed": ref, "history": hist})
             if t is not None or b is not None:
-                plain = ref_rate(ctx.cfg, rec["snap"], kw, "pl%d" % ctx.i, stats=ctx.stats)
-                model_t = dec(ctx.cfg["kwargs"]["tau"])
-                differs = (t is not None and float(t) != model_t) or (b is not None and bool(b) != bool(ctx.cfg["kwargs"]["limit_sigma"]))
+                plain = ref_rate(cfg, rec["snap"], kw, "pl%d" % ctx.i, stats=ctx.stats)
+                model_t = dec(cfg["kwargs"]["tau"])
+                differs = (t is not None and float(t) != model_t) or (b is not None and bool(b) != bool(cfg["kwargs"]["limit_sigma"]))
                 if plain != out:
                     ctx.probe("option_live")
                     if differs:
@@ -557,10 +576,11 @@ class CallsDriver:
                 if t is not None:
                     ctx.probe("tau:" + tau_kind(t))
                 if b is not None:
-                    ctx.probe("limit_sigma:%s_over_%s" % (b, ctx.cfg["kwargs"]["limit_sigma"]))
+                    ctx.probe("limit_sigma:%s_over_%s" % (b, cfg["kwargs"]["limit_sigma"]))
 
     def classify_c15(self, rec, kw, t, b, out):
         ctx = self.ctx
+        cfg = rec.get("cfg", ctx.cfg)
         if t is None and b is None:
             return "C15/omitted_option_differs"
         if t is not None and b is None:
@@ -569,11 +589,11 @@ class CallsDriver:
             return "C15/per_call_limit_sigma_differs:%s" % b
         # both given: attribute by two more reference executions
         kw_b = dict(kw, limit_sigma=b)
-        ref_a = ref_rate(ctx.cfg, rec["snap"], kw_b, "ca%d" % ctx.i, tau=t)  # tau model-level, b per call
+        ref_a = ref_rate(cfg, rec["snap"], kw_b, "ca%d" % ctx.i, tau=t)  # tau model-level, b per call
         if ref_a == out:
             return "C15/per_call_limit_sigma_differs:%s" % b
         kw_t = dict(kw, tau=t)
-        ref_b = ref_rate(ctx.cfg, rec["snap"], kw_t, "cb%d" % ctx.i, limit_sigma=b)
+        ref_b = ref_rate(cfg, rec["snap"], kw_t, "cb%d" % ctx.i, limit_sigma=b)
         if ref_b == out:
             return "C15/per_call_tau_differs:" + tau_kind(t)
         return "C15/per_call_tau_differs:%s+limit_sigma:%s" % (tau_kind(t), b)
@@ -622,9 +642,14 @@ class CallsDriver:
         pre = model_state(league.model)
         records = [[] for _ in range(n)]
         crash = op.get("crash")
+        main_league = league
+        leagues = [self.thread_league(op, ti, pre_values) for ti in range(n)]
+        if op.get("models"):
+            ctx.fault("other_model_in_thread")
 
         def body_for(ti):
             ops = threads[ti]
+            league = leagues[ti]
 
             def body(sc, i):
                 def tracer(fn):
@@ -643,7 +668,7 @@ class CallsDriver:
                     sw0 = sc.switches
                     if o["op"] == "MALFORMED":
                         teams = league.teams_of(o["teams"])
-                        call, args, kw = faults.build_call(o["fault"], ctx.cfg["model"], teams)
+                        call, args, kw = faults.build_call(o["fault"], league.cfg["model"], teams)
                         st, val = tracer(lambda: faults.invoke(league.model, call, args, kw))
                         rec = {"op": o, "out": ("rejected", st if st != "exc" else type(val).__name__)}
                     else:
@@ -709,12 +734,34 @@ class CallsDriver:
         self.prev = "opt"
         self.prev_rebuilt = False
 
+    def thread_league(self, op, ti, pre_values, base=None):
+        """The league a worker thread operates on: the shared one, or - if the op gives this
+        thread a model of its own - a private league around that other model object, holding
+        copies (clamped into ITS domain) of the players the thread's ops name."""
+        cfg2 = (op.get("models") or {}).get(str(ti))
+        if cfg2 is None:
+            return base if base is not None else self.league
+        lg = League(cfg2)
+        for o in op["threads"][ti]:
+            for nm in flat(o["teams"]):
+                if nm in lg.players:
+                    continue
+                mu, sg = pre_values.get(nm, [None, None])
+                if mu is None:
+                    lg.join(nm)
+                    continue
+                mu, sg = lg.dom.clamp(dec(mu), dec(sg))
+                lg.players[nm] = mk_rating(lg.model, mu, sg, nm, self.ctx.stats)
+                lg.save(nm)
+        return lg
+
     def rerun_sequential(self, op, pre_values, records, order):
         ctx = self.ctx
         l2 = League(ctx.cfg)
         for nm, (mu, sg) in pre_values.items():
             l2.players[nm] = mk_rating(l2.model, dec(mu), dec(sg), nm, ctx.stats)
             l2.save(nm)
+        l2s = [self.thread_league(op, ti, pre_values, base=l2) for ti in range(len(op["threads"]))]
         sub = Ctx(ctx.prop, ctx.cfg, ctx.params)
         sub.i = ctx.i
         pos = [0] * len(op["threads"])
@@ -729,7 +776,7 @@ class CallsDriver:
             rec = records[ti][k]
             if o["op"] == "MALFORMED" or rec["out"][0] == "crash":
                 continue
-            r2 = exec_call(sub, l2, o)
+            r2 = exec_call(sub, l2s[ti], o)
             ctx.evaluations += 1
             if r2["out"] != rec["out"]:
                 ctx.violation("C14/differs_from_sequential_order", {"thread": ti, "call": k, "op": o, "threaded": rec["out"], "sequential": r2["out"], "order": order})
@@ -1021,6 +1068,8 @@ def c20_params(rng):
         "opt_rate": rng.choice([0.0, 0.2]),
         "p_restart": rng.choice([0.1, 0.3, 0.6]),
         "p_crash": rng.choice([0.0, 0.05, 0.15]),
+        "p_abort": rng.choice([0.0, 0.05, 0.15]),
+        "p_fork": rng.choice([0.0, 0.0, 0.03]),
         "p_full": rng.choice([0.1, 0.5]),
         "maker": rng.choice(["random", "closest"]),
         "rule": rng.choice(["uniform", "skill", "tie"]),
@@ -1088,6 +1137,13 @@ class StoreDriver:
             inner = gen_rate_op(rng, ctx, self.A, names, p["opt_rate"], maker=p["maker"], rule=p["rule"])
             if inner:
                 return {"op": "CRASH", "inner": inner, "at": int(1 + 500 * frng.random() ** 2), "path": frng.choice(["rating", "create_rating"])}
+        r = frng.random()
+        if r < p.get("p_abort", 0.0):
+            inner = gen_rate_op(rng, ctx, self.A, names, p["opt_rate"], maker=p["maker"], rule=p["rule"])
+            if inner:
+                return {"op": "ABORT", "inner": inner, "at": int(1 + 500 * frng.random() ** 2), "path": frng.choice(["rating", "create_rating"])}
+        if r < p.get("p_abort", 0.0) + p.get("p_fork", 0.0):
+            return {"op": "FORK_RESTORE", "names": frng.sample(allnames, min(len(allnames), frng.randint(1, 4))), "paths": [frng.choice(["rating", "create_rating"]) for _ in range(4)], "new": frng.randint(0, 2)}
         r = rng.random()
         if r < 0.7:
             return gen_rate_op(rng, ctx, self.A, names, p["opt_rate"], maker=p["maker"], rule=p["rule"])
@@ -1265,6 +1321,115 @@ class StoreDriver:
                 self.restored.add(n)
                 self.ever_restored.add(n)
         ctx.log("DEEPCOPY_TEAMS", names)
+
+
+def _op_ABORT(self, op):
+    """A rate call is killed in flight in BOTH twins and the process survives (the service
+    caught a timeout / KeyboardInterrupt): both keep their model object.  League A repairs the
+    torn objects in place - the stored mu and sigma are assigned back onto the SAME objects
+    (same identity, same id) - league B rebuilds the players from the store.  Nothing that
+    matters may live anywhere but in (mu, sigma): the twins must agree from here on."""
+    ctx = self.ctx
+    inner = op["inner"]
+    names = inner["teams"]
+    tau_eff = dec(inner["tau"]) if "tau" in inner else dec(ctx.cfg["kwargs"]["tau"])
+    kw = rate_kwargs(inner)
+    fired = []
+    for L in (self.A, self.B):
+        L.ensure(flat(names))
+        L.reseed_out_of_domain(names, tau_zero=(tau_eff == 0))
+        teams = L.teams_of(names)
+        lc = S.LineCounter(crash_at=op["at"])
+        st, val = lc.run(lambda: L.model.rate(teams, **dict(kw)))
+        fired.append(st)
+    if fired[0] != fired[1]:
+        ctx.violation("C20/twin_diverged:ABORT_point", {"op": op, "kept_objects": fired[0], "restored_objects": fired[1]})
+    if fired[0] == "crash":
+        ctx.fault("abort_line_both_twins")
+    else:
+        ctx.count("crash_missed")
+    for n in flat(names):
+        mu, sg = self.A.stored(n)
+        p = self.A.players[n]
+        p.mu = mu
+        p.sigma = sg
+        restore_player(ctx, self.B, n, op.get("path", "rating"), self.ids, check=True)
+        self.last_paths = dict(self.last_paths)
+        self.last_paths[n] = "abort+" + op.get("path", "rating")
+        self.restored.add(n)
+        self.ever_restored.add(n)
+    ctx.probe("abort_then_repair_in_place_vs_rebuild")
+    ctx.log("ABORT", fired)
+    self.op_RATE(inner)
+
+
+def _op_FORK_RESTORE(self, op):
+    """Pre-fork deployment: the process forks; the child restores some players from the store
+    (and lets a few new ones join) while the parent does the same.  Every rating built in
+    either process must carry an id of its own.  The simulated kernel gives the child its own
+    entropy stream, as a real kernel does; everything else the child inherits."""
+    import os as _os
+
+    from core import Entropy
+
+    ctx = self.ctx
+    names = [n for n in op["names"] if n in self.B.players]
+    r, w = _os.pipe()
+    pid = _os.fork()
+    if pid == 0:
+        code = 0
+        try:
+            _os.close(r)
+            if Entropy.current is not None:
+                Entropy.current.in_child(ctx.i)
+            ids = []
+            for k, n in enumerate(names):
+                mu, sg = self.B.stored(n)
+                if op["paths"][k % len(op["paths"])] == "create_rating":
+                    obj = type(self.B.model).create_rating([mu, sg], n)
+                else:
+                    obj = self.B.model.rating(mu, sg, n)
+                ids.append(obj.id)
+            for k in range(op.get("new", 0)):
+                ids.append(self.B.model.rating(name="forked%d" % k).id)
+            _os.write(w, json.dumps(ids).encode())
+        except BaseException:
+            code = 3
+        finally:
+            _os._exit(code)
+    _os.close(w)
+    mine = []
+    for k, n in enumerate(names):
+        before = len(self.ids)
+        restore_player(ctx, self.B, n, op["paths"][k % len(op["paths"])], self.ids, check=True)
+        self.last_paths = dict(self.last_paths)
+        self.last_paths[n] = "fork+" + op["paths"][k % len(op["paths"])]
+        self.restored.add(n)
+        self.ever_restored.add(n)
+        mine.append(self.B.players[n].id)
+    for k in range(op.get("new", 0)):
+        mine.append(self.B.model.rating(name="parent%d" % k).id)
+    data = b""
+    while True:
+        chunk = _os.read(r, 65536)
+        if not chunk:
+            break
+        data += chunk
+    _os.close(r)
+    _, status = _os.waitpid(pid, 0)
+    if status != 0 or not data:
+        raise HarnessError("forked child failed (status %r)" % (status,))
+    theirs = json.loads(data.decode())
+    ctx.evaluations += 1
+    ctx.fault("fork")
+    clash = sorted(set(mine) & set(theirs))
+    if clash or len(set(theirs)) != len(theirs) or not all(isinstance(x, str) and x for x in theirs):
+        ctx.violation("C20/id_not_fresh:after_fork", {"parent_ids": len(mine), "child_ids": len(theirs), "shared": len(clash)})
+    ctx.log("FORK_RESTORE", names)
+
+
+StoreDriver.op_ABORT = _op_ABORT
+StoreDriver.op_FORK_RESTORE = _op_FORK_RESTORE
 
 
 def _op_DEEPCOPY_HISTORY(self, op):
